@@ -115,9 +115,13 @@ Proof. exact (mode_roundtrip m). Qed.
 Print Assumptions pin_mode_names_roundtrip.
 
 (* the filter the REST client sends for "pin_error or pinned" (the input that used to come back broader) *)
+(* (stated without writing down the order in which the generated table lists the names: Go prints a composite filter in the
+   iteration order of a map, the theorems above quantify over that order, and the order of the entries of the map literal in
+   the source is not behaviour) *)
 Example status_filter_example :
-  status_string st_table 20 = "pin_error,pinned" /\ status_from_string "pin_error,pinned" = 20%N /\
-  status_string st_table 30 = "cluster_error,pin_error,unpin_error,error,pinned" /\ status_from_string (status_string st_table 30) = 30%N.
+  status_from_string (status_string st_table 20) = 20%N /\ status_from_string "pin_error,pinned" = 20%N /\
+  status_from_string "pinned,pin_error" = 20%N /\
+  status_from_string "cluster_error,pin_error,unpin_error,error,pinned" = 30%N /\ status_from_string (status_string st_table 30) = 30%N.
 Proof. vm_compute. repeat split. Qed.
 
 (* ---- the repository's own equality: PinOptions.Equals / Pin.Equals (after the S4 repair) ---- *)
